@@ -16,4 +16,4 @@ grep -q "259 passed; 0 failed" "$S/t.txt" || { echo "TESTS-DO-NOT-PASS-WITH-PATC
 bash "$DIR/demo.sh" "$S/plain" > "$S/d0.txt" 2>&1; r0=$?
 bash "$DIR/demo.sh" "$S/patched" > "$S/d1.txt" 2>&1; r1=$?
 echo "demo without patch: exit $r0; with patch: exit $r1"
-[ $r0 -eq 0 ] && [ $r1 -eq 1 ] && echo "SEED-CONFIRMED" || { echo "SEED-NOT-CONFIRMED"; tail -5 "$S/d0.txt" "$S/d1.txt"; exit 4; }
+[ $r0 -eq 0 ] && [ $r1 -eq 1 ] && echo "SEED-CONFIRMED" || { echo "SEED-NOT-CONFIRMED"; tail -n 5 "$S/d0.txt"; tail -n 5 "$S/d1.txt"; exit 4; }
